@@ -719,18 +719,18 @@ def program(rng, n_decls, p_risky=0.25):
 # ------------------------------------------------------------------------------------------ findings
 # Proposed known_findings.json entries (the lead merges them); until then they are loaded from build/kf-C08.json.
 FIXED = {
-    "fmt-float": "58a1bad",
-    "fmt-mut-param": "76fa00b",
-    "fmt-type-params": "67d8b79",
-    "fmt-unit-type": "0a07b36",
-    "fmt-tuple-type": "603c16f",
-    "fmt-qualified-pattern": "33570fc",
-    "fmt-empty-constructor-pattern": "1ee2d30",
-    "fmt-decorator-type-arg": "ae4b590",
-    "fmt-newtype-methods": "4a76696",
-    "fmt-bytes-escape": "1bbdace",
-    "fmt-arm-trailing-space": "feb9cb5",
-    "fmt-double-newline": "38df3cf"
+    "fmt-float": "f2b27fc",
+    "fmt-mut-param": "5afdbdb",
+    "fmt-type-params": "6b2f182",
+    "fmt-unit-type": "25f33a1",
+    "fmt-tuple-type": "c495c4d",
+    "fmt-qualified-pattern": "a950836",
+    "fmt-empty-constructor-pattern": "9f7b1da",
+    "fmt-decorator-type-arg": "6a5bc8c",
+    "fmt-newtype-methods": "c4e878d",
+    "fmt-bytes-escape": "543f05e",
+    "fmt-arm-trailing-space": "1dd50aa",
+    "fmt-double-newline": "53275b0"
 }   # finding id -> `fix:` commit on branch fix-c08 of /repo
 
 
